@@ -132,6 +132,8 @@ theorem inv_apply (c : Cfg) (o : CfgOp) (h : CfgInv c) : CfgInv (o.apply c).1 :=
   | persistRemove i => exact inv_persistRemove i h
   | loadPersist => exact inv_loadPersist h
   | reload i => exact inv_reload i h
+  | resetPersist => exact ⟨by simp [CfgOp.apply, Cfg.resetPersist], by simp [CfgOp.apply, Cfg.resetPersist],
+      by simp [CfgOp.apply, Cfg.resetPersist], by simp [CfgOp.apply, Cfg.resetPersist]⟩
 
 /-- … and the canonical privileges, given that the operation's own Rust-value entries are. -/
 theorem canon_apply (c : Cfg) (o : CfgOp) (ho : OpCanonical o) (h : CfgCanon c) : CfgCanon (o.apply c).1 := by
@@ -198,6 +200,7 @@ theorem canon_apply (c : Cfg) (o : CfgOp) (ho : OpCanonical o) (h : CfgCanon c) 
   | persistRemove i => exact canon_persistRemove i h
   | loadPersist => exact canon_loadPersist h
   | reload i => exact canon_reload i h
+  | resetPersist => exact ⟨by simp [CfgOp.apply, Cfg.resetPersist], by simp [CfgOp.apply, Cfg.resetPersist]⟩
 
 /-! ## histories -/
 
@@ -318,6 +321,21 @@ example : Granted (proj (runOps hist).fabrics) (mkReq 1 (some .case) [9, tag1 3,
 /-- … but not on endpoint 2, and the admin node may -/
 example : allow (proj (runOps hist).fabrics) (mkReq 1 (some .case) [9, tag1 3, 0, 0] 2 6 WRITE 46) = false := by decide
 example : allow (proj (runOps hist).fabrics) (mkReq 1 (some .case) [112233, 0, 0, 0] 2 6 WRITE 46) = true := by decide
+
+/-- `OpCanonical` matters: the Rust API stores an entry with the bare `A` bit (none of the five
+privileges) — code and specification then differ, as in `C05.odd` -/
+def histOdd : List CfgOp :=
+  [ .fabAdd none,
+    .aclAdd 1 { privilege := Consts.privA, authMode := .case, subjects := none, targets := none, fabIdx := none } ]
+example : allow (proj (runOps histOdd).fabrics) (mkReq 1 (some .case) [5, 0, 0, 0] 0 6 READ 57) = true ∧
+    grantedB (proj (runOps histOdd).fabrics) (mkReq 1 (some .case) [5, 0, 0, 0] 0 6 READ 57) = false := by decide
+/-- … and persisting + reloading such an entry turns it into Administer (the enumeration round trip) -/
+example : ((runOps (histOdd ++ [.persistStore 1, .loadPersist])).fabrics.map (fun f => f.acl.map (·.privilege))) = [[PRIV_ADMIN]] := by
+  decide
+/-- foreign stamps are overwritten: `acl_add_init` with an initializer stamped for fabric 9 -/
+example : ((runOps [.fabAdd none,
+    .aclAddInit 1 (.raw { privilege := PRIV_VIEW, authMode := .pase, subjects := none, targets := none, fabIdx := some 9 })]).fabrics.map
+      (fun f => f.acl.map (·.fabIdx))) = [[some 1]] := by decide
 
 /-! ## `Accessor::for_session` -/
 
